@@ -712,10 +712,15 @@ pub(crate) fn gen_spec(rng: &mut Rng, lang: &str, locale: &str) -> Spec {
     let name_pool = ["total", "rate", "Zed", "in_put", "lam"];
     let n_names = rng.below(4) as usize;
     for k in 0..n_names {
-        let name = name_pool[k].to_string();
+        // mostly distinct spellings; sometimes the same spelling again in another scope (shadowing)
+        let name = if k > 0 && rng.chance(1, 3) { sp.names[0].0.clone() } else { name_pool[k].to_string() };
+        let name = if rng.chance(1, 6) { name.to_uppercase() } else { name };
         let scope = if rng.chance(1, 2) { None } else { Some(rng.below(n_sheets as u64) as u32) };
+        if sp.names.iter().any(|(n, s, _)| n.to_uppercase() == name.to_uppercase() && *s == scope) {
+            continue;
+        }
         let target = if rng.chance(1, 8) { rng.pick(GHOSTS).to_string() } else { rng.pick(&sheets).clone() };
-        let formula = if name == "lam" {
+        let formula = if name.to_lowercase() == "lam" {
             format!("=LAMBDA(x{sep}x+{}!$A$1)", quote(&target))
         } else if rng.chance(1, 2) {
             format!("{}!$A$1", quote(&target))
@@ -774,7 +779,7 @@ pub(crate) fn gen_spec(rng: &mut Rng, lang: &str, locale: &str) -> Spec {
                         format!("=-{}", rf(rng, &mut prefix))
                     } else {
                         let n = &sp.names[rng.below(sp.names.len() as u64) as usize].0;
-                        if n == "lam" {
+                        if n.to_lowercase() == "lam" {
                             format!("=lam({})", rf(rng, &mut prefix))
                         } else {
                             format!("={sum}({n})+{}", rf(rng, &mut prefix))
@@ -818,7 +823,7 @@ fn gen_new_name(rng: &mut Rng, sp: &Spec, i: usize) -> String {
 
 fn gen_ops(ctx: &Ctx, sink: &mut dyn FnMut(String)) {
     let mut rng = Rng::new(ctx.seed ^ 0xC17);
-    let n = if ctx.tier == Tier::Quick { 250 } else { 6_000 };
+    let n = if ctx.tier == Tier::Quick { 600 } else { 6_000 };
     // the confirmed witness of F17a first
     let w = Spec {
         lang: "en".into(),
